@@ -11,6 +11,9 @@ Definition HR : Z := 9223372036854775807 / 8.
 (* fuel of the translated loop of gcdExt; GcdProofs.v: it suffices for all arguments except INT64_MIN *)
 Definition gcd_fuel : nat := 200.
 
+(* fuel of the translated loop of nextPower2 (6 iterations and the final test; Pow2Proofs.v) *)
+Definition pow2_fuel : nat := 8.
+
 Definition sym64 (x : Z) : bool := (-9223372036854775807 <=? x) && (x <=? 9223372036854775807).
 
 Definition leaf_gen (fn : Z) (args : list Z) : option (option Z) :=
@@ -30,6 +33,8 @@ Definition leaf_gen (fn : Z) (args : list Z) : option (option Z) :=
   | 11, [a; b] => Some (match c_gcdExt gcd_fuel a b with Some (g, _, _) => Some g | None => None end)
   | 12, [a; b] => Some (match c_gcdExt gcd_fuel a b with Some (_, s, _) => Some s | None => None end)
   | 13, [a; b] => Some (match c_gcdExt gcd_fuel a b with Some (_, _, t) => Some t | None => None end)
+  (* nextPower2(x) of hashtable.h *)
+  | 14, [x] => Some (c_nextPower2 pow2_fuel x)
   | _, _ => None
   end.
 
@@ -60,6 +65,11 @@ Definition leaf_spec (fn : Z) (args : list Z) (r : Z) : bool :=
                                       Bool.eqb (r =? 0) ((b =? 0) || (negb (a =? 0) && (Z.abs a <? Z.abs b) && (b mod a =? 0)))
                   | None => false
                   end
+  (* nextPower2: the argument is a size_t (taken modulo 2^64, so that a record may show it signed or unsigned);
+     0 and everything above 2^63 give 0 (wrap-around), otherwise the power of two r with x <= r < 2x *)
+  | 14, [x] => let x := x mod 18446744073709551616 in
+               if (x =? 0) || (9223372036854775808 <? x) then r =? 0
+               else (0 <? r) && (r =? 2 ^ Z.log2 r) && (x <=? r) && (r <? 2 * x)
   | _, _ => false
   end.
 
